@@ -21,7 +21,17 @@ struct Plant {
     skippable: bool,
 }
 
-const LEAVES: [(&str, &str); 5] = [("u64", "u64"), ("i64", "i64"), ("usize", "usize"), ("isize", "isize"), ("tuple-type", "(u8, String)")];
+const LEAVES: [(&str, &str); 8] = [
+    ("u64", "u64"),
+    ("i64", "i64"),
+    ("usize", "usize"),
+    ("isize", "isize"),
+    ("tuple-type", "(u8, String)"),
+    // the spellings rustfmt produces for long tuples and the only spelling of a one-element tuple
+    ("tuple-type-trailing-comma", "(u8, String,)"),
+    ("tuple-type-one-element", "(u8,)"),
+    ("tuple-type-nested", "((u8, bool), String)"),
+];
 
 fn chain(leaf: &str, depth: usize, rng: &mut Rng) -> String {
     let mut s = leaf.to_string();
@@ -332,7 +342,7 @@ pub fn run(ctx: &Ctx) -> (Spec, Report) {
     let _ = std::fs::remove_dir_all(&scratch);
     let spec = Spec {
         level: "fault_enumeration",
-        rule: format!("a supported background program plus exactly one planted unsupported construct: {{u64, i64, usize, isize, tuple type}} x 10 positions (struct field, struct-variant field, newtype payload, generic argument, alias target, serialized_as on a struct field / item / tuple-struct field / variant payload / struct-variant field) x wrapper chains of depth 0-5 (Vec, Option, HashMap key/value, Box, array, slice, reference, user generic) x {{no skip, serde(skip), typeshare(skip), and at depths 0 and 3 either one among other arguments of the attribute (before / after a name-value or list argument) or in a second serde attribute}}, plus tuple structs / variants, serde(flatten) in 3 spellings and 2 positions, data enums without tag/content, tag/content on unit enums and 9 non-integer-literal consts: {} plants x 6 languages through the library (must be rejected with an error naming the file; skipped twins must succeed), and {n_cli} cells through the real binary under strace with and without a pre-existing output, single- and multi-file, alone or with valid sibling files of the same crate, the offending item next to accepted items or as the only annotated item of its file, and bystander crates, delivered to the collector in arrival, reversed or seeded order (no create/truncate/write/rename/unlink/mkdir event on the output location, bytes/mtime/inode unchanged); distinct = (construct, position, depth, skip, outcome)", all.len()),
+        rule: format!("a supported background program plus exactly one planted unsupported construct: {{u64, i64, usize, isize, tuple type in four spellings (plain, trailing comma, one element, nested)}} x 10 positions (struct field, struct-variant field, newtype payload, generic argument, alias target, serialized_as on a struct field / item / tuple-struct field / variant payload / struct-variant field) x wrapper chains of depth 0-5 (Vec, Option, HashMap key/value, Box, array, slice, reference, user generic) x {{no skip, serde(skip), typeshare(skip), and at depths 0 and 3 either one among other arguments of the attribute (before / after a name-value or list argument) or in a second serde attribute}}, plus tuple structs / variants, serde(flatten) in 3 spellings and 2 positions, data enums without tag/content, tag/content on unit enums and 9 non-integer-literal consts: {} plants x 6 languages through the library (must be rejected with an error naming the file; skipped twins must succeed), and {n_cli} cells through the real binary under strace with and without a pre-existing output, single- and multi-file, alone or with valid sibling files of the same crate, the offending item next to accepted items or as the only annotated item of its file, and bystander crates, delivered to the collector in arrival, reversed or seeded order (no create/truncate/write/rename/unlink/mkdir event on the output location, bytes/mtime/inode unchanged); distinct = (construct, position, depth, skip, outcome)", all.len()),
         assumptions: vec![
             "consts are planted only for backends with const support (TypeScript, Go, Python)".into(),
             "a run that panics or hangs is C07's finding and counted as inconclusive here".into(),
